@@ -437,6 +437,9 @@ def sampled(res, st, std_coq, extra_vo=()):
     if have and pid == "C10":
         recovery_correspondence(res, cases)
         type_recover_correspondence(res, rnd, q)
+        stmt_family_correspondence(res, rnd, q)
+    if have and pid == "C11":
+        stmt_family_correspondence(res, rnd, q)
     if have and pid in ("C05", "C06", "C08"):
         # the theorems are about Parse/ExprModel.v: tie it to ParseExpr (full trees, every position) and evaluate the theorems'
         # hypothesis input_okb on every token list the real lexer produced
@@ -648,6 +651,42 @@ def type_roundtrip_check(res, rnd, q):
                    not diffs and cnt.get("OK", 0) > 0, str(diffs[:2]))
     res.extra["type_roundtrip"] = {"inputs": len(inputs), "accepted": len(pairs), "verdicts": dict(cnt)}
     res.add_cases(len(pairs), cnt.get("OK", 0), [])
+
+
+def stmt_family_correspondence(res, rnd, q):
+    """the statement family of Parse/StmtModel.v (sixteen DDL statements, with the recover points of parseDDL / parseStatementInternal) under
+    ParseDDL, ParseStatement and -- through the list loop of Parse/ListLoop.v -- ParseDDLs, ParseStatements, on the real lexer's tokens: number
+    of errors and every returned node with every position, Bad nodes with their tokens included (the 'separated' flag of Bad-node tokens is
+    projected away); inputs that leave the family are skipped and counted"""
+    import re
+    single, lists = gens.stmt_family_cases(rnd, q)
+    norm = lambda s_: re.sub(r" B[01]\)", ")", s_).rstrip()
+    total = {"compared": 0, "outside": 0, "lexerr": 0}
+    bad = []
+    for entry, ins in (("ParseDDL", single), ("ParseStatement", single), ("ParseDDLs", lists + single[:3000]), ("ParseStatements", lists + single[:3000])):
+        inp = "\n".join(hexs(x) for x in ins) + "\n"
+        toks = vlib.run_lines(vlib.HARNESS, ["expr-toks"], inp)
+        go = vlib.run_lines(vlib.HARNESS, ["stmt-go", entry], inp)
+        md = vlib.run_lines(vlib.DRIVER, ["stmt-model", entry], "\n".join(toks) + "\n")
+        for x, g_, m in zip(ins, go, md):
+            gm = g_.split(" => ", 1)[1]
+            mm = m.split(" => ", 1)[1]
+            if mm == "UNSUP":
+                total["outside"] += 1
+            elif mm == "LEXERR":
+                total["lexerr"] += 1
+            elif norm(gm) != mm.rstrip():
+                bad.append((entry, x, gm[:400], mm[:400]))
+            else:
+                total["compared"] += 1
+    for (entry, x, g_, m) in bad[:3]:
+        res.violation("%s and the model of the statement family disagree (errors, nodes with positions, Bad nodes)" % entry,
+                      {"kind": "stmt-family", "entry": entry, "input_hex": hexs(x), "go": g_, "model": m})
+    res.obligation("correspondence: ParseDDL / ParseStatement / ParseDDLs / ParseStatements == extracted statement-family model + list loop "
+                   "(%d compared, %d outside the family)" % (total["compared"], total["outside"]), not bad and total["compared"] > 1000,
+                   "\n".join("%s %r\n go:    %s\n model: %s" % b for b in bad[:3]))
+    res.extra["stmt_family_correspondence"] = dict(total, disagreements=len(bad))
+    res.add_cases(total["compared"] + total["outside"] + total["lexerr"], total["compared"], [])
 
 
 C10_TARGETED = [b"CAST(1 AS ARRAY<STRUCT<x y>>)", b"CAST(1 AS ARRAY<STRUCT<a INT64, b c d>>)", b"CAST(1 AS ARRAY<ARRAY<x y>>) + 1", b"CAST(1 AS STRUCT<x y>>)",
